@@ -142,11 +142,11 @@ func runC38a(env *kernel.Env) {
 	ls := sql.NewLockSubsystem()
 	names := []string{"a", "b", "c"}[:nnames]
 	type sessT struct {
-		id    int8
-		ctx   *sql.Context
-		task  *kernel.Task
-		left  int
-		cur   *lkPending
+		id   int8
+		ctx  *sql.Context
+		task *kernel.Task
+		left int
+		cur  *lkPending
 	}
 	var sess []*sessT
 	for i := 0; i < nsess; i++ {
